@@ -20,8 +20,8 @@ import tempfile
 
 import numpy as np
 
-FAULTABLE = {"mkdtemp", "open", "write", "close", "copymode", "replace", "remove", "rmdir"}
-ERRNOS = {"mkdtemp": _errno.EACCES, "open": _errno.EACCES, "write": _errno.ENOSPC, "close": _errno.EIO,
+FAULTABLE = {"mkdtemp", "open", "write", "close", "copymode", "replace", "remove", "rmdir", "truncate"}
+ERRNOS = {"truncate": _errno.ENOSPC, "mkdtemp": _errno.EACCES, "open": _errno.EACCES, "write": _errno.ENOSPC, "close": _errno.EIO,
           "copymode": _errno.EPERM, "replace": _errno.EXDEV, "remove": _errno.EACCES, "rmdir": _errno.EBUSY}
 
 
@@ -269,10 +269,79 @@ def _make_open(ctl):
     return popen
 
 
+class _DetFuture:
+    pass
+
+
+def _det_namespace():
+    """A stand-in for the module's `concurrent` name: ThreadPoolExecutor / as_completed that realise ONE legal
+    schedule of the pool deterministically - one task at a time, in submission order, on the calling thread
+    (one worker); a task's exception (BaseException included) is captured in its future exactly as the real
+    executor does; shutdown(cancel_futures=True) cancels what has not started.  The parallel CODE PATH of the
+    writer is exercised (preallocation, r+b worker handle, futures error path, finally-close) with a reproducible
+    effect order, so that it can be compared with the Coq model effect by effect."""
+    import concurrent.futures as cf
+    import types
+
+    class DetFuture(cf.Future):
+        def _run(self):
+            if self.done() or not self.set_running_or_notify_cancel():
+                return
+            fn, a, kw = self._det
+            try:
+                r = fn(*a, **kw)
+            except BaseException as e:  # noqa: BLE001
+                self.set_exception(e)
+            else:
+                self.set_result(r)
+
+        def result(self, timeout=None):
+            for f in self._owner.queue:           # everything submitted before runs first
+                if f is self:
+                    break
+                f._run()
+            self._run()
+            return super().result(timeout)
+
+    class DetExecutor:
+        def __init__(self, max_workers=None, **kw):
+            self.queue = []
+
+        def submit(self, fn, *a, **kw):
+            f = DetFuture()
+            f._det, f._owner = (fn, a, kw), self
+            self.queue.append(f)
+            return f
+
+        def shutdown(self, wait=True, cancel_futures=False):
+            for f in self.queue:
+                if cancel_futures:
+                    f.cancel()
+                else:
+                    f._run()
+
+        def __enter__(self):
+            return self
+
+        def __exit__(self, *a):
+            self.shutdown(wait=True)
+            return False
+
+    def as_completed(fs, timeout=None):
+        for f in list(fs):
+            f._run()
+            yield f
+    futures = types.SimpleNamespace(**{k: getattr(cf, k) for k in dir(cf) if not k.startswith("_")})
+    futures.ThreadPoolExecutor = DetExecutor
+    futures.as_completed = as_completed
+    return types.SimpleNamespace(futures=futures)
+
+
 class Shim:
     """Context manager installing the proxies on onnx_ir.external_data / _core."""
 
-    def __init__(self, ctl: Ctl, chunk: int | None, realfile: bool = False):
+    def __init__(self, ctl: Ctl, chunk: int | None, realfile: bool = False, pardet: bool = False):
+        self.pardet = pardet
         # realfile: the module's own open() is NOT replaced - ordinary buffered Python files with a file
         # descriptor, so ExternalTensor.tofile takes its copy_file_range path and numpy writes through the fd
         self.ctl, self.chunk, self.realfile = ctl, chunk, realfile
@@ -292,6 +361,9 @@ class Shim:
         ed.tempfile = _ModProxy(c, tempfile, "tempfile")
         if not self.realfile:
             ed.open = _make_open(c)
+        self.saved["concurrent"] = ed.__dict__.get("concurrent")
+        if self.pardet:
+            ed.concurrent = _det_namespace()
         if self.chunk is not None:
             _core._EXTERNAL_TENSOR_COPY_CHUNK_SIZE = self.chunk
         real_release, real_invalidate = self.saved["release"], self.saved["invalidate"]
@@ -315,7 +387,7 @@ class Shim:
 
     def __exit__(self, *a):
         ed, _core, s = self.ed, self.core, self.saved
-        for name in ("os", "shutil", "tempfile"):
+        for name in ("os", "shutil", "tempfile", "concurrent"):
             if s[name] is None:
                 ed.__dict__.pop(name, None)
             else:
@@ -388,6 +460,37 @@ class Built:
     pass
 
 
+def source_len(scn: dict, name: str):
+    """Length of the data file a tensor's path names in the scenario's initial directory (links followed), from
+    the scenario's own data - None when there is no such file (missing, NUL in the name, ...)."""
+    spec = scn["files"].get(name)
+    for _ in range(4):
+        if spec is None:
+            return None
+        if spec["kind"] == "file":
+            return len(spec["bytes"])
+        tgt = spec["target"]
+        if spec["kind"] == "symlink":
+            tgt = os.path.normpath(os.path.join(os.path.dirname(name), tgt))
+        name, spec = tgt, scn["files"].get(tgt)
+    return None
+
+
+def mappable(scn: dict, t: dict) -> bool:
+    """Can the tensor be memory-mapped before the save (numpy())?  A tensor whose backing file is shorter than
+    offset+length (truncated data file) cannot: that is an input of the scenario, not a harness error."""
+    n = source_len(scn, t["file"])
+    return n is not None and t["off"] + t["len"] <= n
+
+
+def wants_map(scn: dict, t: dict) -> bool:
+    return bool(t.get("preload") or t.get("hold")) and mappable(scn, t)
+
+
+def wants_hold(scn: dict, t: dict) -> bool:
+    return bool(t.get("hold")) and mappable(scn, t)
+
+
 def build(scn: dict, root: str) -> Built:
     """Create the directory tree and the model of a scenario under `root` (fresh)."""
     import onnx_ir as ir
@@ -427,9 +530,9 @@ def build(scn: dict, root: str) -> Built:
                 loc, bdir = t["file"], root
             obj = ir.ExternalTensor(loc, t["off"], t["len"], ir.DataType.UINT8,
                                     shape=ir.Shape([t["len"]]), name=name, base_dir=bdir)
-            if t.get("preload") or t.get("hold"):
+            if wants_map(scn, t):
                 arr = obj.numpy()
-                if t.get("hold"):
+                if wants_hold(scn, t):
                     b.views.append(arr)     # the caller keeps using the array: the memory map cannot be closed
             h = len(b.ext)
             b.ext.append(obj)
@@ -518,7 +621,7 @@ def run_save(scn: dict, root: str, mode=None, index=-1, err=None, persistent=Fal
         ctl.tick("callback")
         ctl.log.append(("callback", i))
     outcome = ("ok", None)
-    with Shim(ctl, scn.get("chunk"), realfile):
+    with Shim(ctl, scn.get("chunk"), realfile, bool(scn.get("pardet"))):
         try:
             ir.save(b.model, os.path.join(root, "model.onnx"), **save_kwargs(scn, cb_log))
         except BaseException as e:  # noqa: BLE001  (KeyboardInterrupt / SystemExit are injected on purpose)
@@ -541,7 +644,7 @@ def run_killed(scn: dict, root: str, index: int, fault_at=None, err=None, persis
 
             def cb_log(i):
                 ctl.tick("callback")
-            with Shim(ctl, scn.get("chunk")):
+            with Shim(ctl, scn.get("chunk"), False, bool(scn.get("pardet"))):
                 try:
                     ir.save(b.model, os.path.join(root, "model.onnx"), **save_kwargs(scn, cb_log))
                 except BaseException:  # noqa: BLE001
@@ -633,6 +736,8 @@ def canon_log(log: list, canon: Canon) -> list:
             out.append(("samefile_err", canon.comps(e[1]), canon.comps(e[2])))
         elif k == "open":
             out.append(("open", canon.comps(e[1]), e[2]))
+        elif k == "truncate":
+            out.append(("truncate", e[2]))
         elif k == "callback":
             out.append(("callback", e[1]))
         elif k == "seek":
